@@ -31,12 +31,31 @@ def run(replay=None):
             ck.impl_violation("entry-jump-wrong-destination", "the entry jump for a replacement at 0x%x is %s: it loads %s into RDX (NOP; MOVABS RDX,imm64; JMP [RDX] expected %s)" % (
                 to, r["bytes"], r["bytes"][6:22], want), {"to": r["to"], "bytes": r["bytes"], "expected": want})
             break
+    # retention: builder and callback dropped by the program, collections with heap churn, then a call (own process: a crash is an observation)
+    rp = os.path.join(ck.wd, "retain.jsonl")
+    rc, out = vlib.run_hx(hx, ["c01", "-extra", "retain", "-out", rp], timeout=600)
+    rrs = vlib.read_jsonl(rp) if os.path.exists(rp) else []
+    rets = [r for r in rrs if r.get("kind") == "retain"]
+    if rc != 0:
+        last = [r for r in rrs if r.get("kind") == "retain-about"]
+        ck.impl_violation("replacement-not-retained:crash", "the process crashes (exit %d) calling a mocked function after its builder was dropped and collections ran (%s)" % (
+            rc, last[-1] if last else "?"), {"tail": out[-600:], "last": last[-1] if last else None})
+    for r in rets:
+        if r["collected"] or r["panic"] or r["got"] != r["want"]:
+            ck.impl_violation("replacement-not-retained", "mock of %s (%s) with the builder dropped: after collections the callback's captured object was %s and the call returned %s (want %s) %s" % (
+                r["name"], "Return stub" if r["stub"] else "Apply callback", "COLLECTED" if r["collected"] else "kept", r["got"], r["want"], r["panic"]), r)
+    if rc == 0 and len(rets) < 18:
+        ck.obligation_broken("harness: the retention scenario did not run", out[-400:])
+    ck.notes["retention_scenarios"] = len(rets)
     seeds = [ck.seed] if ck.tier == "quick" else [ck.seed + i for i in range(10)]
     sigs_seen, calls, kinds = set(), 0, {}
     samples = []
-    for sd in seeds:
+    # the last pass repeats the zoo with goom's debug logging switched on (the debug wrapper sits between the entry jump and the replacement)
+    passes = [(sd, "off") for sd in seeds] + [(seeds[-1] + 1, "debug")]
+    for sd, logmode in passes:
         obs = os.path.join(ck.wd, "obs_%d.jsonl" % sd)
-        rc, out = vlib.run_hx(hx, ["c01", "-seed", str(sd), "-tier", ck.tier, "-out", obs], timeout=3000)
+        env = dict(vlib.go_env(), HX_LOG=logmode)
+        rc, out = vlib.run_hx(hx, ["c01", "-seed", str(sd), "-tier", ck.tier, "-out", obs], timeout=3000, env=env)
         rs = vlib.read_jsonl(obs) if os.path.exists(obs) else []
         if rc != 0:
             last = [r for r in rs if r.get("kind") == "about"]
@@ -51,7 +70,7 @@ def run(replay=None):
                 samples.append({"name": r["name"], "type": r["type"], "calls": r["calls"]})
             k = "variadic" if r["variadic"] else ("many-args" if r["nin"] > 9 else "plain")
             kinds[k] = kinds.get(k, 0) + 1
-            case = {"seed": sd, "name": r["name"], "type": r["type"], "bad": r["bad"]}
+            case = {"seed": sd, "logging": logmode, "name": r["name"], "type": r["type"], "bad": r["bad"]}
             if r["apply_panic"]:
                 ck.impl_violation("apply-panics", "mocking %s (%s) panics: %s" % (r["name"], r["type"], r["apply_panic"]), case)
             for b in r["bad"]:
